@@ -49,5 +49,9 @@ func (q *persistentQueue[T]) Add(data T, configs ...JobConfigFunc) bool {
 
 // Purge removes all jobs from the queue
 func (q *persistentQueue[T]) Purge() {
-	q.queue.Purge()
+	// let the event loop release WaitUntilFinished callers if nothing is left
+	defer q.w.notifyToPullNextJobs()
+
+	// the stored entries are serialized jobs: there is no handle to release, the adapter drops them
+	q.internalQueue.Purge()
 }
